@@ -30,28 +30,14 @@ def run_property(prop, tier, seed, quiet=False):
     P = Program()
     if P.dynamic_sites:
         raise AnalysisError(f"dynamic attribute tricks in the package (assumption A5): {P.dynamic_sites}")
-    results = []
-    for rule in spec["rules"]:
-        r = rule(P) if not isinstance(rule, tuple) else rule[0](P, **rule[1])
-        if isinstance(r, list):
-            results.extend(r)
-        else:
-            results.append(r)
-    for r in results:
-        if len(r.obs) < r.min_instances:
-            raise AnalysisError(
-                f"rule {r.rule} matched {len(r.obs)} instance(s), fewer than the {r.min_instances} confirmed by hand "
-                f"(the rule would pass vacuously)"
-            )
+    results = report.run_rules(P, spec["rules"])
     extra = {}
     if tier == "thorough":
         from . import selftest
 
         st = selftest.run(prop, quiet=quiet)
         extra["selftest"] = st
-        for extra_rule in spec.get("thorough_rules", []):
-            r = extra_rule(P)
-            results.extend(r if isinstance(r, list) else [r])
+        results.extend(report.run_rules(P, spec.get("thorough_rules", [])))
     known = report.load_known()
     new, hits, undecided = [], [], []
     for r in results:
@@ -103,12 +89,10 @@ def replay(path):
     P = Program()
     spec = props.PROPS[prop]
     found = None
-    for rule in spec["rules"] + spec.get("thorough_rules", []):
-        r = rule(P)
-        for rr in r if isinstance(r, list) else [r]:
-            for o in rr.obs:
-                if o.key() == key:
-                    found = o
+    for rr in report.run_rules(P, spec["rules"] + spec.get("thorough_rules", [])):
+        for o in rr.obs:
+            if o.key() == key:
+                found = o
     if found is None:
         print(f"replay: the construct {key} no longer exists in the tree (rule instance gone)")
         return 0
